@@ -20,7 +20,9 @@ def plan(tier):
                 seqs += [('apply', 'setitem'), ('setitem', 'apply'), ('stack', 'index'), ('reshape', 'setitem'), ('flatten', 'index'), ('copy', 'setitem'),
                          ('combine', 'index'), ('index', 'stack')]
             elif q:
-                seqs += [('apply', 'apply'), ('astype', 'apply'), ('stack', 'setitem'), ('combine', 'setitem')]
+                # two symbolic isometries in a row on a Segment / hyperbolic Polygon (ideal endpoints recomputed through a square root of a
+                # degree-8 polynomial) do not finish within the quick budget since the endpoints are normalised (repair 8192a51): thorough only
+                seqs += ([('apply', 'apply')] if kind == 'hyp.TangentVector' else []) + [('astype', 'apply'), ('stack', 'setitem'), ('combine', 'setitem')]
             if not q and kind == 'proj.Polygon':
                 seqs += [s for s in itertools.product(['apply', 'setitem', 'stack', 'reshape', 'combine', 'index'], repeat=3)]
             for s in seqs:
